@@ -182,7 +182,13 @@ impl SlabRouter {
                     // Try to store in embedding slab; if dimension mismatch, just use metadata
                     if self.embeddings.set(entity_id, vec).is_err() {
                         // Dimension mismatch - store in metadata only (this is fine)
+                        self.embeddings.delete(entity_id);
                     }
+                } else {
+                    // No embedding in the new value: whatever the slab holds for this id
+                    // (an older value of the key, or a stale entry replayed from the log
+                    // under a previous session's id) must not be returned by `get`.
+                    self.embeddings.delete(entity_id);
                 }
                 #[cfg(neumann_verif)]
                 crate::verif::yield_point("router.put.emb.after_vector", key);
@@ -643,6 +649,7 @@ impl SlabRouter {
                 if let Some(TensorValue::Vector(vec)) = data.get("_embedding") {
                     let entity_id = self.index.get_or_create(key);
                     if let Err(e) = self.embeddings.set(entity_id, vec) {
+                        self.embeddings.delete(entity_id);
                         tracing::warn!(
                             entity_id = %entity_id.as_u64(),
                             key = %key,
@@ -650,6 +657,10 @@ impl SlabRouter {
                             "Failed to restore embedding during WAL replay"
                         );
                     }
+                } else if Self::classify_key(key) == KeyClass::Embedding {
+                    // Same as `put`: allocate the id and drop any stale slab entry.
+                    let entity_id = self.index.get_or_create(key);
+                    self.embeddings.delete(entity_id);
                 }
             },
             WalEntry::MetadataDelete { key } => {
